@@ -141,6 +141,21 @@ func genC12(rng *rand.Rand, c *Case) {
 			}
 		}
 	}
+	c12Frozen(rng, c)
+}
+
+// c12Frozen adds, to a quarter of the cases, a logged-in reader whose connection has gone dead without being closed (it
+// never reads again and no FIN or RST arrives) while one of the others speaks often enough that dozens of transactions
+// are addressed to it: everybody else must go on receiving every line.
+func c12Frozen(rng *rand.Rand, c *Case) {
+	if rng.Intn(4) != 0 {
+		return
+	}
+	c.Cfg["frozen"] = 1
+	c.Cfg["sendbuf"] = []int{512, 2048, 16384}[rng.Intn(3)]
+	at := rng.Intn(len(c.Ops) + 1)
+	flood := Op{C: rng.Intn(c.Cfg["clients"]), K: "flood", N: []int{36 + rng.Intn(40), rng.Intn(60)}}
+	c.Ops = append(c.Ops[:at], append([]Op{flood}, c.Ops[at:]...)...)
 }
 
 func runC12(w *World) {
@@ -165,6 +180,7 @@ func runC12(w *World) {
 		names[i] = nm + strings.Repeat("x", max(0, cfg[fmt.Sprintf("nlen%d", i)]-len(nm)))
 	}
 	w.AddAccount("guest", "Guest", "", rp.Access{})
+	w.AddAccount("frozen", "Frozen", "", rp.AccessOf(rp.PAnyName, rp.PReadChat))
 	w.StartServer()
 
 	chatID := map[int][]byte{}          // slot -> chat id
@@ -220,7 +236,21 @@ func runC12(w *World) {
 					quit[idx] = true
 					c.Disconnect()
 					return
-				case "say":
+				case "say", "flood":
+					if op.K == "flood" {
+						for k := 0; k < op.N[0] && !c.Closed; k++ {
+							seq++
+							tag := fmt.Sprintf("m%d:", seq)
+							body := tag + randText(orng, op.N[1])
+							m := &c12Msg{tag: tag, kind: "pub", sender: idx, payload: chatLine(c.Name, body, false), refused: acc&2 == 0}
+							m.iv.inv = w.Sim.Step
+							m.reqID = c.Request(rp.TChatSend, rp.FS(rp.FData, body))
+							m.iv.ret = fence()
+							msgs = append(msgs, m)
+						}
+						w.Probe("floods_of_public_chat")
+						continue
+					}
 					seq++
 					tag := fmt.Sprintf("m%d:", seq)
 					body := tag + randText(orng, op.N[0])
@@ -330,9 +360,23 @@ func runC12(w *World) {
 			Settle()
 		})
 	}
+	if cfg["frozen"] == 1 {
+		fz := w.NewClient("frozen", "10.1.9.9")
+		w.Sim.Go("frozen", true, func() {
+			if !fz.Login("frozen", "", "", 0) || !fz.Agree(fz.Name, 9, 0, "") {
+				w.Violate("c12-login", "the reader that is to freeze could not log in: %v", fz.FrameErr)
+				return
+			}
+			fz.Conn.HoldIncoming(true)
+			w.Probe("fault_frozen_reader")
+		})
+	}
 	w.Sim.Run()
 
 	for _, c := range w.Clients {
+		if c.Idx >= n {
+			continue // the frozen reader: nothing is expected of it
+		}
 		if c.FrameErr != nil {
 			w.Violate("c12-malformed-stream", "client %d: %v", c.Idx, c.FrameErr)
 			return
